@@ -231,6 +231,9 @@ func runHTTP(m map[string]string) (out string) {
 		if m["ovf"] != "" {
 			conf = r6Overflow(conf, m, len(reqs))
 		}
+		if m["atd"] != "" {
+			conf = r6WrittenAutoTag(conf, m["atd"])
+		}
 		if d := atoi(m["dto"], 0); d > 0 {
 			conf = strings.Replace(conf, "dial: {timeout: 2s}", fmt.Sprintf("dial: {timeout: %dms}", d), 1)
 		}
@@ -1510,6 +1513,9 @@ func class(input, obs string) string {
 		}
 		if m["down"] != "" {
 			c += ":target-goes-away"
+		}
+		if m["atd"] != "" {
+			c += ":autotag-defaults"
 		}
 		if m["ovf"] != "" {
 			c += ":overflow" + m["ovf"]
